@@ -30,5 +30,7 @@ pub fn main(_args: &[String]) -> i32 {
     println!("EBADF={}", libc::EBADF as i64);
     println!("ENOTSOCK={}", libc::ENOTSOCK as i64);
     println!("MSG_NOSIGNAL={}", libc::MSG_NOSIGNAL as i64);
+    println!("SOL_SOCKET={}", libc::SOL_SOCKET as i64);
+    println!("SO_TYPE={}", libc::SO_TYPE as i64);
     0
 }
